@@ -73,6 +73,36 @@ def dump(path):
     return out
 
 
+def dump_ddmin(path):
+    """one line per candidate of ddmin's task generator (every mutator, several granularities): the grouped
+    simplifications of strategy_ddmin.TaskGenerator, applied to the input"""
+    from ddsmt import strategy_ddmin
+    exprs = impl.parse(open(path).read())
+    smtlib.collect_information(exprs)
+    out = []
+    for tname, cls, m in all_mutators():
+        if not (hasattr(m, 'mutations') or hasattr(m, 'global_mutations')):
+            continue
+        try:
+            n = strategy_ddmin.TaskGenerator(exprs, None, m).num_filtered
+        except Exception as e:  # noqa
+            out.append(f'{cls} ERROR {type(e).__name__}')
+            continue
+        for gran in sorted(set(g for g in (n, n // 2, n // 4, 3, 2) if g > 1), reverse=True):
+            tg = strategy_ddmin.TaskGenerator(exprs, gran, m)
+            for k, task in enumerate(tg):
+                if k > 40:
+                    break
+                for i, simp in enumerate(task.simplifications[:4]):
+                    try:
+                        res = apply(exprs, simp)
+                        txt = impl.nodeio.write_smtlib_to_str(res) if res is not None else 'None'
+                    except Exception as e:  # noqa
+                        txt = f'ERROR {type(e).__name__}'
+                    out.append(f'{cls} gran={gran} task={task.id} #{i} {txt!r}')
+    return out
+
+
 if __name__ == '__main__':
-    for line in dump(_ARGV[1]):
+    for line in (dump_ddmin(_ARGV[2]) if _ARGV[1] == '--ddmin' else dump(_ARGV[1])):
         print(line)
